@@ -203,7 +203,7 @@ def check_flush(ctx, num=3, only=None):
             ctx.ob(num, "K16", f"{meth}: when the key changes the finished group is yielded before the next group is started", okp, f, s,
                    detail="a yield lies on every path to the restart" if okp else (g.describe_path(pre) if pre else "a restart without a yield is possible after the first group"))
         # flush after the loop
-        after = [n for n in g.nodes if n.is_yield and n.ast is not None and not any(n.ast is z for z in ast.walk(lp)) and getattr(n.ast, "lineno", 0) > lp.lineno]
+        after = [n for n in g.nodes if n.is_yield and n.ast is not None and not any(n.ast is z for z in ast.walk(lp)) and pos(f, n.ast) > pos(f, lp)]
         okf = False
         d = "no yield after the loop"
         for y in after:
